@@ -332,6 +332,6 @@ func (s *Sched) abort() {
 	}
 }
 
-func (s *Sched) Steps() int        { return s.steps }
-func (s *Sched) Hash() uint64      { return s.hash }
-func (s *Sched) Aborted() bool     { return s.aborted }
+func (s *Sched) Steps() int    { return s.steps }
+func (s *Sched) Hash() uint64  { return s.hash }
+func (s *Sched) Aborted() bool { return s.aborted }
